@@ -128,7 +128,12 @@ func (fs *FS) mountPoint(path string) (_ hackpadfs.FS, mountPoint, subPath strin
 // Open implements hackpadfs.FS
 func (fs *FS) Open(name string) (hackpadfs.File, error) {
 	mountFS, subPath := fs.Mount(name)
-	return mountFS.Open(subPath)
+	file, err := mountFS.Open(subPath)
+	if pathErr, ok := err.(*hackpadfs.PathError); ok && subPath != name {
+		// name the caller's path, not the path inside the mounted file system
+		err = &hackpadfs.PathError{Op: pathErr.Op, Path: name, Err: pathErr.Err}
+	}
+	return file, err
 }
 
 // Point represents a mount point, including any relevant metadata
